@@ -119,3 +119,32 @@ def cells(kind, model=None, obligation=None, **_):
     if len(bad) >= 3:
       break
   return bool(bad), "\n".join(bad) or "no cell coordinate of the grid is converted wrongly by this tree"
+
+
+def box(rows, indents=None, model=None, obligation=None, **_):
+  """the indents / safe-area offsets of the counter-model (and a grid of others) through the real SccCaptionParagraph"""
+  import itertools
+  from ttconv.scc.caption_paragraph import SccCaptionParagraph
+  m = {k: int(str(v)) for k, v in (model or {}).items() if str(v).lstrip("-").isdigit()}
+  texts = ["ab", "cdefg", "h"][:len(rows)]
+  cases = [(list(indents or [0] * len(rows)), m.get("sx", 0), m.get("sy", 0))]
+  cases += [(list(ind), sx, sy) for ind in itertools.product((0, 1, 5, 31), repeat=len(rows)) for sx, sy in ((0, 0), (4, 2))]
+  bad = []
+  for ind, sx, sy in cases:
+    try:
+      p = SccCaptionParagraph(sx, sy)
+      for r, i, t in zip(rows, ind, texts):
+        p.set_cursor_at(r, i)
+        p.append_text(t)
+      o, e, lines = p.get_origin(), p.get_extent(), p.get_lines()
+      got = (o.x.value, o.y.value, e.width.value, e.height.value, sorted((r, ln.get_row(), ln.get_indent(), ln.get_length()) for r, ln in lines.items()))
+    except Exception as ex:      # pylint: disable=broad-except
+      bad.append(f"rows {rows} indents {ind} safe area ({sx},{sy}): {type(ex).__name__}: {ex}")
+      continue
+    want = (min(ind) + sx, min(rows) - 1 + sy, max(len(t) for t in texts), max(rows) - min(rows) + 1,
+            sorted((r, r, i, len(t)) for r, i, t in zip(rows, ind, texts)))
+    if got != want:
+      bad.append(f"rows {rows} indents {ind} safe area ({sx},{sy}): origin/extent/lines {got}, expected {want}")
+    if len(bad) >= 3:
+      break
+  return bool(bad), "\n".join(bad) or "no paragraph of the grid gets a wrong box on this tree"
